@@ -118,8 +118,16 @@ def stepBasic (s : St) : Op → St
       | .half => if c.inHandler || c.halfHead then c else { c with halfHead := true, sniffing := false }
       | .rest => if c.halfHead && !c.sniffing then startHandler c else closeServerSide c
       | .garbage => if c.inHandler then c else closeServerSide c
-      | .prihalf => if c.sniffing && !c.halfHead then { c with halfHead := true } else closeServerSide c
-      | .pri => if c.sniffing && !c.halfHead then { c with sniffing := false, h2 := true } else closeServerSide c
+      -- part of the HTTP/2 preface: while sniffing it is a strict prefix (keep sniffing); after a
+      -- different partial head it makes the sniffer decide HTTP/1 with garbage; on a connection already
+      -- serving HTTP/1 it is just the beginning of another request line
+      | .prihalf =>
+        if c.sniffing then (if !c.halfHead then { c with halfHead := true } else closeServerSide c)
+        else if c.inHandler || c.halfHead then c else { c with halfHead := true }
+      -- the whole preface: HTTP/2 while sniffing from the start; otherwise an invalid HTTP/1 request
+      | .pri =>
+        if c.sniffing then (if !c.halfHead then { c with sniffing := false, h2 := true } else closeServerSide c)
+        else if c.inHandler then c else closeServerSide c
   | .gate i =>
     modClient s i fun c =>
       if c.inHandler then
